@@ -2,7 +2,8 @@
 
 The functions exp, log, sqrt, erf, erfcx, cos, sin are uninterpreted in the obligations.
 For every application that occurs in an obligation the instances below are added as
-hypotheses.  They are mathematical facts (trusted, listed in every evidence file); a
+hypotheses.  They are mathematical facts: each schema is a Lean theorem about the real functions of Mathlib
+(lemmas/FunctionAxioms.lean; for erf, defined by its integral, lemmas/Convolution.lean), re-checked on every run; a
 counter-model over the uninterpreted functions may be spurious, which is why every
 refutation is replayed natively before it is reported.
 """
